@@ -154,6 +154,18 @@ pub fn run_sign(ctx: &Ctx) {
             let mut k = pk.clone();
             k[bit / 8] ^= 1 << (bit % 8);
             vrf_case(&mut out, &k, &ch, &sig);
+            // a corrupted key (about half of them no longer decode to a curve point) with DEGENERATE signatures: R = the
+            // neutral element or a small-order point, s = 0 (seeded change C13-r8 replaced an undecodable key by the
+            // default key, the neutral element, for which these verify for every message)
+            if v < 3 {
+                for rhex in ["0100000000000000000000000000000000000000000000000000000000000000",
+                             "ecffffffffffffffffffffffffffffffffffffffffffffffffffffffffffff7f",
+                             "0000000000000000000000000000000000000000000000000000000000000080"] {
+                    let mut dsig = unhex(rhex);
+                    dsig.extend(vec![0u8; 32]);
+                    vrf_case(&mut out, &k, &ch, &dsig);
+                }
+            }
         }
         // wrong lengths
         vrf_case(&mut out, &pk[..31], &ch, &sig);
